@@ -2,6 +2,7 @@ package main
 
 import (
 	"fmt"
+	"math/big"
 	"os"
 	"os/exec"
 	"sort"
@@ -11,6 +12,7 @@ import (
 	"github.com/zenon-network/go-zenon/chain/genesis"
 	g "github.com/zenon-network/go-zenon/chain/genesis/mock"
 	"github.com/zenon-network/go-zenon/chain/nom"
+	"github.com/zenon-network/go-zenon/chain/store"
 	"github.com/zenon-network/go-zenon/common"
 	"github.com/zenon-network/go-zenon/common/db"
 	"github.com/zenon-network/go-zenon/common/types"
@@ -31,16 +33,23 @@ import (
 // Model-free monitors: activity never before the enforcement height nor at the genesis store, monotone in height, on from
 // max(enforcement height, height of the recording momentum); enforcement height = acknowledged height + minimum delay;
 // a second activation never changes anything; a gated method is available iff its own spork is active.
+// Reorganisations (every second scenario): the node is rolled back with chain.RollbackTo across creation / activation /
+// enforcement heights of the scenario's sporks and continues DIFFERENTLY (no activation, a later one, another spork first,
+// or the same calls again); every height of the surviving branch is observed again (S-rollback line: the model's state
+// becomes the one recorded for the fork point and the abandoned heights are forgotten). Model-free: IsSporkActive on the
+// store of every height equals the answer read off the spork contract's storage as of that momentum — whatever this
+// process has seen before — and a gated method is available iff the CONTRACT of the acknowledged momentum says so.
 // ---------------------------------------------------------------------------------------------------
 
 type sporkRec struct {
-	name     string
-	id       types.Hash
-	bound    *types.ImplementedSpork // nil for the unknown spork
-	tag      string                  // acc / bridge / htlc / unknown
-	created  bool
-	enf      uint64 // expected enforcement height once activated (from the acknowledged momentum of the first successful activation)
-	recorded uint64 // height of the momentum that confirmed the activating receive
+	name      string
+	id        types.Hash
+	bound     *types.ImplementedSpork // nil for the unknown spork
+	tag       string                  // acc / bridge / htlc / unknown
+	created   bool
+	createdAt uint64 // height of the momentum that confirmed the creating receive
+	enf       uint64 // expected enforcement height once activated (from the acknowledged momentum of the first successful activation)
+	recorded  uint64 // height of the momentum that confirmed the activating receive
 }
 
 func init() {
@@ -94,6 +103,9 @@ func sporkScenario(c *Ctx, id int) {
 	}
 	abort := false
 	var commCreated []types.Hash // sporks created by the community key (never activated by this scenario unless the window allows it)
+	var commCreatedAt []uint64   // … and the height of the momentum that confirmed each creation (a rollback below it removes the spork)
+	var ghosts []types.Hash      // ids of the scenario's sporks whose creation was abandoned by a rollback: they exist on no momentum of the chain any more
+	reorgNote := ""              // what this node went through (for the failure texts)
 	commN := 0
 
 	sporks := []*sporkRec{
@@ -156,6 +168,25 @@ func sporkScenario(c *Ctx, id int) {
 		return ids
 	}
 	lastActive := map[string]bool{}
+	// the answer read off the spork contract's storage as of the momentum of store `st` (height h), through the definition
+	// getters — independent of IsSporkActive and of anything the node process has seen before
+	contractSays := func(st store.Momentum, h uint64, sid types.Hash) (bool, string) {
+		for _, sp := range definition.GetAllSporks(st.GetAccountStore(types.SporkContract).Storage()) {
+			if sp.Id == sid {
+				return sp.Activated && sp.EnforcementHeight <= h && h != 1, fmt.Sprintf("Activated=%v EnforcementHeight=%d", sp.Activated, sp.EnforcementHeight)
+			}
+		}
+		return false, "no such spork"
+	}
+	// monitor (C17, model-free): the answer depends only on the acknowledged momentum's state
+	sameAsContract := func(st store.Momentum, h uint64, sid types.Hash, act bool, via string) bool {
+		want, info := contractSays(st, h, sid)
+		if act != want {
+			fail("C17: IsSporkActive(%s) on the store of height %d (%s) answers %v, but the spork contract as of that momentum says %s, i.e. %v%s", h8(sid), h, via, act, info, want, reorgNote)
+			return false
+		}
+		return true
+	}
 	observeHeight := func(h uint64) {
 		m, err := n.Chain().GetFrontierMomentumStore().GetMomentumByHeight(h)
 		if err != nil || m == nil {
@@ -182,6 +213,16 @@ func sporkScenario(c *Ctx, id int) {
 			}
 			c.Emit("S-active %d %s | %v", h, h8(s.id), act)
 			c.Hit(fmt.Sprintf("active-%v", act))
+			sameAsContract(st, h, s.id, act, "GetMomentumStore")
+			if h == n.Height() {
+				// the live view of the same momentum
+				fst := n.Chain().GetFrontierMomentumStore()
+				if live, err := fst.IsSporkActive(probe); err != nil || live != act {
+					fail("C17: IsSporkActive(%s) at height %d: the frontier store answers %v (%v), the store of the same momentum by identifier %v%s", h8(s.id), h, live, err, act, reorgNote)
+				} else {
+					sameAsContract(fst, h, s.id, live, "GetFrontierMomentumStore")
+				}
+			}
 			key := h8(s.id)
 			// monitors
 			if act && (s.enf == 0 || h < s.enf || h == 1) {
@@ -194,6 +235,17 @@ func sporkScenario(c *Ctx, id int) {
 				fail("C17: spork %s was active at height %d and is not at height %d", s.name, h-1, h)
 			}
 			lastActive[key] = act
+		}
+		// sporks of an abandoned branch: they are on no momentum of this chain
+		for _, gid := range ghosts {
+			act, err := st.IsSporkActive(&types.ImplementedSpork{SporkId: gid})
+			if err != nil {
+				fail("IsSporkActive: %v", err)
+				continue
+			}
+			c.Emit("S-active %d %s | %v", h, h8(gid), act)
+			c.Hit(fmt.Sprintf("active-abandoned-id-%v", act))
+			sameAsContract(st, h, gid, act, "GetMomentumStore")
 		}
 		_, unimpl, err := chain.GotAllActiveSporksImplemented(st)
 		if err != nil {
@@ -260,12 +312,29 @@ func sporkScenario(c *Ctx, id int) {
 				}
 				if status == 1 && m.Name == definition.SporkCreateMethodName {
 					commCreated = append(commCreated, send.Hash)
+					commCreatedAt = append(commCreatedAt, dm.Momentum.Height)
 				}
 			}
 			switch m.Name {
 			case definition.SporkCreateMethodName:
 				c.Emit("S-create %s %d %s | %s", senderName(send.Address), fh, h8(send.Hash), res)
 				c.Hit("create-" + res)
+				for _, s := range sporks {
+					if !s.created && !s.id.IsZero() && s.id == send.Hash && status == 1 {
+						// sent below the fork point of a rollback, received again on the surviving branch: the same id is back
+						for i, gid := range ghosts {
+							if gid == s.id {
+								ghosts = append(ghosts[:i], ghosts[i+1:]...)
+								break
+							}
+						}
+						s.created = true
+						c.Hit("reorg-creation-received-again")
+					}
+					if s.created && s.id == send.Hash && status == 1 {
+						s.createdAt = dm.Momentum.Height
+					}
+				}
 			case definition.SporkActivateMethodName:
 				sid := new(types.Hash)
 				definition.ABISpork.UnpackMethod(sid, m.Name, send.Data)
@@ -348,7 +417,8 @@ func sporkScenario(c *Ctx, id int) {
 	for _, r := range rows {
 		keySet[r[1]+"."+r[2]] = true
 	}
-	probe := func(h uint64) {
+	// focus: indices (0 accelerator, 1 bridge&liquidity, 2 htlc) of sporks whose gated methods are all probed, not sampled
+	probe := func(h uint64, focus ...int) {
 		m, _ := n.Chain().GetFrontierMomentumStore().GetMomentumByHeight(h)
 		if m == nil {
 			return
@@ -360,8 +430,21 @@ func sporkScenario(c *Ctx, id int) {
 		}
 		st := n.Chain().GetMomentumStore(m.Identifier())
 		flags := [3]bool{}
+		// the flags are read off the spork contract of the acknowledged momentum (what a node that only ever saw this
+		// chain, or this node after a restart, decides by); IsSporkActive must agree
 		for i, sp := range []*types.ImplementedSpork{types.AcceleratorSpork, types.BridgeAndLiquiditySpork, types.HtlcSpork} {
-			flags[i], _ = st.IsSporkActive(sp)
+			flags[i], _ = contractSays(st, h, sp.SporkId)
+			if act, err := st.IsSporkActive(sp); err == nil {
+				sameAsContract(st, h, sp.SporkId, act, "GetMomentumStore, availability probe")
+			}
+		}
+		inFocus := func(own int) bool {
+			for _, f := range focus {
+				if f == own {
+					return true
+				}
+			}
+			return false
 		}
 		// a sample of methods per probe (all of them in the thorough tier)
 		for _, ca := range allContractABIs {
@@ -370,7 +453,7 @@ func sporkScenario(c *Ctx, id int) {
 				if !keySet[key] {
 					continue
 				}
-				if c.Tier != "thorough" && c.R.Intn(4) != 0 {
+				if skip := c.Tier != "thorough" && c.R.Intn(4) != 0; skip && !(len(focus) > 0 && inFocus(ownSpork(rows, key))) {
 					continue
 				}
 				data, err := c.genCall(ca.abi, name, pool)
@@ -391,10 +474,12 @@ func sporkScenario(c *Ctx, id int) {
 				if own >= 0 {
 					if avail != flags[own] {
 						tag := "C17"
-						if avail && !flags[own] {
+						// F17: the leak that the table selection by priority htlc > bridge > accelerator explains — a spork of
+						// higher priority is enforced on the acknowledged momentum
+						if avail && !flags[own] && ((own == 0 && (flags[1] || flags[2])) || (own == 1 && flags[2])) {
 							tag = "C17 spork-order"
 						}
-						fail("%s: method %s for a block acknowledging height %d is available=%v while its guarding spork (%s) active=%v [acc=%v bridge=%v htlc=%v]", tag, key, h, avail, []string{"accelerator", "bridge-liquidity", "htlc"}[own], flags[own], flags[0], flags[1], flags[2])
+						fail("%s: method %s for a block acknowledging height %d is available=%v while its guarding spork (%s) active=%v by the spork contract of that momentum [acc=%v bridge=%v htlc=%v]%s", tag, key, h, avail, []string{"accelerator", "bridge-liquidity", "htlc"}[own], flags[own], flags[0], flags[1], flags[2], reorgNote)
 					}
 				} else if !avail {
 					fail("C17: ungated method %s is unavailable for a block acknowledging height %d", key, h)
@@ -487,27 +572,378 @@ func sporkScenario(c *Ctx, id int) {
 	// an older binary on this ledger: for every enforced spork in turn, the binary's list of implemented sporks is taken to
 	// be without it (chain.Init and momentum insertion stop the node when the report is non-empty): the report on the store
 	// of EVERY height from the enforcement height to the frontier must name it — not only on the enforcement momentum itself
-	for _, s := range sporks {
-		if s.bound == nil || !s.created || s.enf == 0 || s.recorded == 0 || n.Height() < s.enf {
-			continue
+	oldBinary := func() {
+		for _, s := range sporks {
+			if s.bound == nil || !s.created || s.enf == 0 || s.recorded == 0 || n.Height() < s.enf {
+				continue
+			}
+			delete(types.ImplementedSporksMap, s.id)
+			var others []string
+			for _, o := range sporks {
+				if o != s && o.bound != nil && o.created {
+					others = append(others, h8(o.id))
+				}
+			}
+			sort.Strings(others)
+			impl := strings.Join(others, ",")
+			if impl == "" {
+				impl = "none"
+			}
+			from := s.enf
+			if from > 2 {
+				from -= 2
+			}
+			for h := from; h <= n.Height(); h++ {
+				m, _ := n.Chain().GetFrontierMomentumStore().GetMomentumByHeight(h)
+				if m == nil {
+					continue
+				}
+				st := n.Chain().GetMomentumStore(m.Identifier())
+				if st == nil {
+					continue
+				}
+				_, unimpl, err := chain.GotAllActiveSporksImplemented(st)
+				if err != nil {
+					fail("GotAllActiveSporksImplemented: %v", err)
+					break
+				}
+				var got []string
+				named := false
+				for _, u := range unimpl {
+					got = append(got, h8(u.Id))
+					if u.Id == s.id {
+						named = true
+					}
+				}
+				sort.Strings(got)
+				res := strings.Join(got, ",")
+				if res == "" {
+					res = "none"
+				}
+				c.Emit("S-unimpl %d %s | %s", h, impl, res)
+				should := h >= s.enf && h >= s.recorded
+				if h >= s.enf && h < s.recorded {
+					continue // the activation was confirmed later than its own enforcement height: not judged here
+				}
+				if named != should {
+					fail("C17: a binary that does not implement %s (enforced from height %d) gets the unimplemented-spork report %v on the store of height %d, expected %v — such a node must stop at every height from the enforcement height on, also when it starts on a ledger that is already past it", s.name, s.enf, named, h, should)
+					break
+				}
+				c.Hit(fmt.Sprintf("old-binary-report-%v", should))
+			}
+			types.ImplementedSporksMap[s.id] = true
 		}
-		delete(types.ImplementedSporksMap, s.id)
-		var others []string
-		for _, o := range sporks {
-			if o != s && o.bound != nil && o.created {
-				others = append(others, h8(o.id))
+	}
+	oldBinary()
+	// ---------------------------------------------------------------------------------------------------------------
+	// reorganisation: the node abandons the upper part of its chain (chain.RollbackTo, as when protocol/chain_bridge
+	// InsertChain switches to a longer side chain) at a height chosen around the creation / activation / enforcement
+	// height of one of the scenario's enforced sporks, and the surviving branch continues differently:
+	//   none         nobody activates anything; empty momentums past every abandoned enforcement height
+	//   later        the abandoned activations (the first k) are sent again, each acknowledging a HIGHER momentum
+	//   other-first  another spork of the scenario is activated first — then the abandoned one, or never
+	//   same         the same calls again, right away (control; with a fork point above the activation: nothing but momentums)
+	// Every height of the surviving branch is observed as it grows and once more at the end; availability is probed around
+	// every abandoned and every new enforcement height with all the methods the sporks concerned guard.
+	// ---------------------------------------------------------------------------------------------------------------
+	reorg := func(kind string, forcePos string) {
+		var cands []*sporkRec
+		for _, s := range sporks {
+			if s.bound != nil && s.created && s.createdAt != 0 && s.enf != 0 && s.recorded != 0 && n.Height() >= s.enf {
+				cands = append(cands, s)
 			}
 		}
-		sort.Strings(others)
-		impl := strings.Join(others, ",")
-		if impl == "" {
-			impl = "none"
+		if len(cands) == 0 {
+			c.Hit("reorg-no-candidate")
+			return
 		}
-		from := s.enf
-		if from > 2 {
-			from -= 2
+		t := cands[c.R.Intn(len(cands))]
+		oldFrontier := n.Height()
+		// a spork that was activated after t's enforcement height + 1 and enforced: a fork point that keeps t's activation still
+		// abandons an enforcement
+		laterEnforced := false
+		for _, s := range cands {
+			if s != t && s.recorded > t.enf+1 {
+				laterEnforced = true
+			}
 		}
-		for h := from; h <= n.Height(); h++ {
+		// a contract's receive block acknowledges the momentum that confirmed the send and is confirmed by the next one: a fork
+		// point exactly between the two keeps the call, and the surviving branch answers it again (same id, same enforcement height)
+		positions := []string{"below-creation", "creation-sent-not-received", "created-not-activated", "activation-sent-not-received"}
+		if kind == "same" || laterEnforced {
+			positions = append(positions, "activated-not-enforced", "enforcement-1", "enforcement", "enforcement+1")
+		}
+		pos := positions[c.R.Intn(len(positions))]
+		if forcePos != "" {
+			pos = forcePos
+		}
+		between := func(lo, hi uint64) uint64 {
+			if hi <= lo {
+				return lo
+			}
+			return lo + uint64(c.R.Intn(int(hi-lo+1)))
+		}
+		var H uint64
+		switch pos {
+		case "below-creation":
+			lo := uint64(2)
+			if t.createdAt > 6 {
+				lo = t.createdAt - 4
+			}
+			H = between(lo, t.createdAt-2)
+		case "creation-sent-not-received":
+			H = t.createdAt - 1
+		case "created-not-activated":
+			H = between(t.createdAt, t.recorded-2)
+		case "activation-sent-not-received":
+			H = t.recorded - 1
+		case "activated-not-enforced":
+			H = between(t.recorded, t.enf-2)
+		case "enforcement-1":
+			H = t.enf - 1
+		case "enforcement":
+			H = t.enf
+		case "enforcement+1":
+			H = t.enf + 1
+		}
+		// an activated unknown spork does not survive (the surviving branch is extended past every enforcement height, and
+		// the real node exits the process when an unimplemented spork is enforced)
+		for _, s := range sporks {
+			if s.bound == nil && s.recorded != 0 && H+1 >= s.recorded {
+				H = s.recorded - 2 // below the momentum that confirmed the activating send
+			}
+		}
+		if H >= oldFrontier {
+			H = oldFrontier - 1
+		}
+		if H < 2 {
+			H = 2
+		}
+		target, terr := n.Chain().GetFrontierMomentumStore().GetMomentumByHeight(H)
+		if terr != nil || target == nil {
+			fail("no momentum %d to roll back to: %v", H, terr)
+			return
+		}
+		ins := n.Chain().AcquireInsert("zvh spork reorg")
+		rerr := n.Chain().RollbackTo(ins, target.Identifier())
+		ins.Unlock()
+		if rerr != nil || n.Height() != H {
+			fail("rollback from %d to %d failed: %v (frontier now %d)", oldFrontier, H, rerr, n.Height())
+			abort = true
+			return
+		}
+		c.Emit("S-rollback %d | ok", H)
+		c.Hit("reorg")
+		c.Hit("reorg-" + kind + "-at-" + pos)
+		type undoneAct struct {
+			s       *sporkRec
+			id      types.Hash
+			enf, fh uint64
+		}
+		var undone []undoneAct // activations of bound sporks that the rollback abandoned, in the order they were made
+		var note []string
+		settle := false // a creation or activation was sent below the fork point and received above it
+		for _, oi := range order {
+			s := sporks[oi]
+			if (s.recorded != 0 && s.recorded == H+1) || (s.created && s.createdAt == H+1) {
+				settle = true
+				c.Hit("reorg-between-a-call-and-its-receive")
+			}
+			if s.recorded > H {
+				if s.bound != nil {
+					undone = append(undone, undoneAct{s, s.id, s.enf, s.enf - constants.SporkMinHeightDelay})
+					if s.enf <= oldFrontier {
+						c.Hit("reorg-abandons-a-reached-enforcement-height")
+						note = append(note, fmt.Sprintf("%s (%s) was enforced at %d", s.name, h8(s.id), s.enf))
+					}
+				}
+				s.enf, s.recorded = 0, 0
+			}
+			if s.created && (s.createdAt == 0 || s.createdAt > H) {
+				ghosts = append(ghosts, s.id)
+				s.created, s.createdAt = false, 0
+				c.Hit("reorg-abandons-a-creation")
+			}
+		}
+		if len(undone) == 0 {
+			c.Hit("reorg-abandons-no-activation")
+		}
+		for i := len(commCreated) - 1; i >= 0; i-- {
+			if commCreatedAt[i] > H {
+				commCreated = append(commCreated[:i], commCreated[i+1:]...)
+				commCreatedAt = append(commCreatedAt[:i], commCreatedAt[i+1:]...)
+			}
+		}
+		reorgNote += fmt.Sprintf(" (this node went through a rollback from height %d to %d", oldFrontier, H)
+		if len(note) > 0 {
+			reorgNote += ", abandoning a branch on which " + strings.Join(note, ", ")
+		}
+		reorgNote += ")"
+		for k := range lastActive {
+			delete(lastActive, k)
+		}
+		observeHeight(H)
+		if settle {
+			// the surviving branch answers the call that it still holds
+			for k := 0; k < 2; k++ {
+				if !mom() {
+					return
+				}
+			}
+			kept := undone[:0]
+			for _, u := range undone {
+				if u.s.enf == 0 {
+					kept = append(kept, u)
+					continue
+				}
+				c.Hit("reorg-activation-received-again")
+				if u.s.enf != u.enf || u.s.id != u.id {
+					fail("C17: the activation of %s was sent below the fork point %d and received again on the surviving branch: enforcement height %d, on the abandoned branch %d", u.s.name, H, u.s.enf, u.enf)
+				}
+			}
+			undone = kept
+		}
+
+		idx := func(s *sporkRec) int {
+			for i := range sporks {
+				if sporks[i] == s {
+					return i
+				}
+			}
+			return -1
+		}
+		ensureCreated := func(s *sporkRec) bool {
+			if s.created {
+				return true
+			}
+			descr := "verif, on the surviving branch"
+			if kind == "same" {
+				descr = "verif"
+			}
+			b, err := sendSpork(g.Spork.Address, definition.ABISpork.PackMethodPanic(definition.SporkCreateMethodName, s.name, descr))
+			if err != nil {
+				fail("spork creation refused after the rollback: %v", err)
+				return false
+			}
+			s.id, s.created = b.Hash, true
+			for i, gid := range ghosts {
+				if gid == s.id { // the very same block again: the id is back
+					ghosts = append(ghosts[:i], ghosts[i+1:]...)
+					break
+				}
+			}
+			s.bound.SporkId = s.id
+			types.ImplementedSporksMap[s.id] = true
+			c.Emit("S-bind %s %s", s.tag, h8(s.id))
+			for k := 0; k < 1+c.R.Intn(2); k++ {
+				if !mom() {
+					return false
+				}
+			}
+			return true
+		}
+		activateWalk := func(s *sporkRec, notBefore uint64) bool {
+			if !ensureCreated(s) {
+				return false
+			}
+			for n.Height() < notBefore {
+				if !mom() {
+					return false
+				}
+			}
+			if _, err := sendSpork(g.Spork.Address, definition.ABISpork.PackMethodPanic(definition.SporkActivateMethodName, s.id)); err != nil {
+				fail("spork activation refused after the rollback: %v", err)
+				return false
+			}
+			for k := 0; k < 12 && (s.enf == 0 || n.Height() <= s.enf); k++ {
+				if !mom() {
+					return false
+				}
+				if s.enf != 0 && n.Height()+1 >= s.enf && n.Height() <= s.enf+1 {
+					probe(n.Height(), idx(s))
+				}
+			}
+			if s.enf == 0 {
+				fail("C17: activation of %s on the surviving branch was never recorded", s.name)
+				return false
+			}
+			return true
+		}
+		if c.R.Intn(2) == 0 {
+			// a plain transfer makes the first momentum of the surviving branch differ from the abandoned one
+			n.Submit(&nom.AccountBlock{BlockType: nom.BlockTypeUserSend, Address: g.User1.Address, ToAddress: g.User4.Address, TokenStandard: types.ZnnTokenStandard, Amount: big.NewInt(1)})
+		}
+		switch {
+		case kind == "later" && len(undone) > 0:
+			for _, u := range undone[:1+c.R.Intn(len(undone))] {
+				if !activateWalk(u.s, u.fh+1+uint64(c.R.Intn(3))) {
+					return
+				}
+				if u.s.enf <= u.enf {
+					fail("harness: the later activation of %s is enforced at %d, not later than %d", u.s.name, u.s.enf, u.enf)
+				}
+				c.Hit("reorg-activated-later")
+			}
+		case kind == "other-first" && len(undone) > 0:
+			var others []*sporkRec
+			for _, s := range sporks[:3] {
+				if s != undone[0].s && s.enf == 0 {
+					others = append(others, s)
+				}
+			}
+			if len(others) > 0 {
+				if !activateWalk(others[c.R.Intn(len(others))], 0) {
+					return
+				}
+				c.Hit("reorg-another-spork-first")
+			}
+			if len(others) == 0 || c.R.Intn(2) == 0 {
+				if !activateWalk(undone[0].s, undone[0].fh+1) {
+					return
+				}
+				c.Hit("reorg-then-the-abandoned-one")
+			} else {
+				c.Hit("reorg-another-spork-instead")
+			}
+		case kind == "same":
+			for _, u := range undone {
+				if !activateWalk(u.s, 0) {
+					return
+				}
+			}
+			c.Hit("reorg-same-calls-again")
+		default:
+			c.Hit("reorg-no-activation-on-the-surviving-branch")
+		}
+		// past every abandoned and every new enforcement height
+		T := H + 3
+		for _, u := range undone {
+			if x := u.enf + 1 + uint64(c.R.Intn(2)); x > T {
+				T = x
+			}
+		}
+		for _, s := range sporks[:3] {
+			if s.enf != 0 && s.enf+1 > T {
+				T = s.enf + 1
+			}
+		}
+		for n.Height() < T {
+			if !mom() {
+				return
+			}
+		}
+		// every height of the surviving branch once more (historical stores), then the heights below without lines
+		for k := range lastActive {
+			delete(lastActive, k)
+		}
+		lo := uint64(2)
+		if H > 4 {
+			lo = H - 2
+		}
+		for h := lo; h <= n.Height(); h++ {
+			observeHeight(h)
+		}
+		for h := uint64(2); h < lo; h++ {
 			m, _ := n.Chain().GetFrontierMomentumStore().GetMomentumByHeight(h)
 			if m == nil {
 				continue
@@ -516,36 +952,48 @@ func sporkScenario(c *Ctx, id int) {
 			if st == nil {
 				continue
 			}
-			_, unimpl, err := chain.GotAllActiveSporksImplemented(st)
-			if err != nil {
-				fail("GotAllActiveSporksImplemented: %v", err)
-				break
-			}
-			var got []string
-			named := false
-			for _, u := range unimpl {
-				got = append(got, h8(u.Id))
-				if u.Id == s.id {
-					named = true
+			var ids []types.Hash
+			for _, s := range sporks {
+				if s.created {
+					ids = append(ids, s.id)
 				}
 			}
-			sort.Strings(got)
-			res := strings.Join(got, ",")
-			if res == "" {
-				res = "none"
+			for _, sid := range append(ids, ghosts...) {
+				if act, err := st.IsSporkActive(&types.ImplementedSpork{SporkId: sid}); err == nil {
+					sameAsContract(st, h, sid, act, "GetMomentumStore")
+				}
 			}
-			c.Emit("S-unimpl %d %s | %s", h, impl, res)
-			should := h >= s.enf && h >= s.recorded
-			if h >= s.enf && h < s.recorded {
-				continue // the activation was confirmed later than its own enforcement height: not judged here
-			}
-			if named != should {
-				fail("C17: a binary that does not implement %s (enforced from height %d) gets the unimplemented-spork report %v on the store of height %d, expected %v — such a node must stop at every height from the enforcement height on, also when it starts on a ledger that is already past it", s.name, s.enf, named, h, should)
-				break
-			}
-			c.Hit(fmt.Sprintf("old-binary-report-%v", should))
 		}
-		types.ImplementedSporksMap[s.id] = true
+		// gated calls acknowledging momentums of the surviving branch around the ABANDONED enforcement heights (and the frontier):
+		// all the methods the sporks concerned guard; the answer must be the one of a node that only ever saw this branch
+		probed := map[uint64]bool{}
+		var focusAll []int
+		for _, u := range undone {
+			focusAll = append(focusAll, idx(u.s))
+		}
+		for _, u := range undone {
+			if u.enf > oldFrontier {
+				continue
+			}
+			for _, h := range []uint64{u.enf - 1, u.enf, u.enf + 1} {
+				if h > H && h <= n.Height() && !probed[h] {
+					probed[h] = true
+					probe(h, idx(u.s))
+					c.Hit("reorg-probe-around-abandoned-enforcement-height")
+				}
+			}
+		}
+		if !probed[n.Height()] && len(focusAll) > 0 {
+			probe(n.Height(), focusAll...)
+		}
+		oldBinary()
+	}
+	if id%2 == 1 {
+		// directed: the first of every five is the plain witness family — the fork point lies between the creation and the
+		// activation of an enforced spork, nobody activates it on the surviving branch, which grows past the abandoned
+		// enforcement height
+		k := (id / 2) % 5
+		reorg([]string{"none", "later", "other-first", "none", "same"}[k], []string{"created-not-activated", "", "", "", ""}[k])
 	}
 	c.Hit("scenario")
 	if id%8 == 0 || (withUnknown && id%2 == 0) {
